@@ -99,6 +99,7 @@ Proof. unfold obs_of.
 Fixpoint all_stmts (S:stmt -> Prop) (p:prog) : Prop :=
   match p with
   | PSkip => True
+  | PRaise _ => True
   | PStmt s => S s
   | PSeq p q => all_stmts S p /\ all_stmts S q
   | PTry b h e => all_stmts S b /\ all_stmts S h /\ all_stmts S e
@@ -108,22 +109,24 @@ Lemma run_inv k f inj (I:conn -> Prop) (S:stmt -> Prop) :
   (forall s c, S s -> I c -> I (fst (exec k s c))) ->
   forall p, all_stmts S p -> forall x, I (s_conn x) -> I (s_conn (fst (run k f inj p x))).
 Proof.
-  intros HS. induction p as [|s|p IHp q IHq|b IHb h IHh els IHe]; cbn [run all_stmts]; intros Hp x Hx.
+  intros HS. induction p as [|s|p IHp q IHq|e0|b IHb h IHh els IHe]; cbn [run all_stmts]; intros Hp x Hx.
   - exact Hx.
   - unfold step. destruct (f (s_n x)); cbn; auto.
     specialize (HS s (s_conn x) Hp Hx). destruct (exec k s (s_conn x)); cbn in *; auto.
   - destruct Hp as [H1 H2]. specialize (IHp H1 x Hx). destruct (run k f inj p x) as [x1 [e|]]; cbn in *; auto.
+  - exact Hx.
   - destruct Hp as [H1 [H2 H3]]. specialize (IHb H1 x Hx). destruct (run k f inj b x) as [x1 [e|]]; cbn in *; auto.
     specialize (IHh H2 x1 IHb). destruct (run k f inj h x1) as [x2 e2]; cbn in *; auto.
 Qed.
 
 Lemma run_log k f inj p : forall x, exists l, s_log (fst (run k f inj p x)) = l ++ s_log x.
 Proof.
-  induction p as [|s|p IHp q IHq|b IHb h IHh els IHe]; cbn [run]; intros x.
+  induction p as [|s|p IHp q IHq|e0|b IHb h IHh els IHe]; cbn [run]; intros x.
   - exists []; auto.
   - unfold step. destruct (f (s_n x)); [|destruct (exec k s (s_conn x))]; cbn; exists [kind_of s]; auto.
   - destruct (IHp x) as [l1 H1]. destruct (run k f inj p x) as [x1 [e|]]; cbn in *; [eauto|].
     destruct (IHq x1) as [l2 H2]. exists (l2 ++ l1). rewrite H2, H1, app_assoc; auto.
+  - exists []; auto.
   - destruct (IHb x) as [l1 H1]. destruct (run k f inj b x) as [x1 [e|]]; cbn in *.
     + destruct (IHh x1) as [l2 H2]. destruct (run k f inj h x1) as [x2 e2]; cbn in *.
       exists (l2 ++ l1). rewrite H2, H1, app_assoc; auto.
@@ -196,6 +199,9 @@ Section Create.
     - apply index_prog_all. eauto.
   Qed.
 
+  Lemma tail_G kk x : G (s_conn x) -> G (s_conn (fst (run kk f inj (index_tail t tr ixs) x))).
+  Proof. unfold index_tail. destruct (gather_ok tr ixs); [apply index_G|cbn [run fst]; auto]. Qed.
+
   Ltac safe_tac :=
     unfold safe, R1, R2, R3; cbn [lookup set_tbl]; rewrite ?name_eqb_refl, ?Htm, ?Hmt, ?HT0;
     first [ left; eexists; split; [reflexivity|split; reflexivity]
@@ -205,7 +211,7 @@ Section Create.
   Lemma create_G : G (s_conn (fst xend)).
   Proof.
     unfold xend, x0, create_prog.
-    destruct k, pre; go; try apply index_G; unfold G; cbn [s_conn committed current begin_scope]; split; safe_tac.
+    destruct k, pre; go; try apply tail_G; unfold G; cbn [s_conn committed current begin_scope]; split; safe_tac.
   Qed.
 
   Lemma early_false log a b : In (KRename a b) log -> early (rev log) = false.
@@ -299,12 +305,43 @@ Section Create.
         try (destruct (intx c)); cbn [fst committed current]; auto; apply (index_J_apply _ _ _ A HJ).
     - apply index_prog_all. eauto.
   Qed.
+  Lemma tail_J kk x : J (s_conn x) -> J (s_conn (fst (run kk f inj (index_tail t tr ixs) x))).
+  Proof. unfold index_tail. destruct (gather_ok tr ixs); [apply index_J|cbn [run fst]; auto]. Qed.
   Lemma create_success : lookup tmp db = None -> snd xend = None -> J (s_conn (fst xend)).
   Proof.
     intros Hfresh. unfold xend, x0, create_prog.
     destruct k, pre; go; try congruence; cbn [snd]; intros He; try discriminate He;
-      apply index_J; unfold J, R3; cbn [s_conn current lookup set_tbl]; rewrite ?name_eqb_refl, ?Htm, ?Hmt;
+      apply tail_J; unfold J, R3; cbn [s_conn current lookup set_tbl]; rewrite ?name_eqb_refl, ?Htm, ?Hmt;
       (split; [auto | eexists; split; [reflexivity|split; reflexivity]]).
+  Qed.
+
+  (* one failing statement among the first four, everything else fine: exactly what is left *)
+  Lemma create_fault_table pos oc :
+    (pos <= 3)%nat -> (forall n, f n = Nat.eqb n pos) -> lookup tmp db = None -> violates nd [] img = false ->
+    (lookup t (end_scope oc (s_conn (fst xend))), lookup tmp (end_scope oc (s_conn (fst xend)))) = left_after k pre oc pos T0 nd img.
+  Proof.
+    intros Hpos Hf Hfresh Hv. unfold img in Hv. unfold xend, x0, create_prog.
+    destruct pos as [|[|[|[|p]]]]; [| | | |exfalso; lia];
+    destruct k, pre, oc; go;
+      try (match goal with F : f _ = _ |- _ => rewrite Hf in F; discriminate F end); try congruence;
+      try (match goal with |- context [run ?kk f inj (index_tail t tr ixs) ?x] => exfalso;
+             match goal with F : f 3%nat = false |- _ => rewrite Hf in F; discriminate F end end);
+      cbn [left_after end_scope fst snd s_conn committed current begin_scope lookup set_tbl];
+      rewrite ?name_eqb_refl, ?Htm, ?Hmt, ?HT0, ?Hfresh;
+      try (match goal with L : lookup tmp db = _ |- _ => rewrite L end); auto.
+  Qed.
+  (* the Python-level failure point: the gather raises after the rename; exactly what is left *)
+  Lemma create_gather_fault oc :
+    gather_ok tr ixs = false -> (forall n, f n = false) -> lookup tmp db = None -> violates nd [] img = false ->
+    snd xend = Some EPython /\ rev (s_log (fst xend)) = [KCreate tmp; KCopy t tmp; KDrop t; KRename tmp t] /\
+    (lookup t (end_scope oc (s_conn (fst xend))), lookup tmp (end_scope oc (s_conn (fst xend)))) = left_after_gather k pre oc T0 nd img.
+  Proof.
+    intros Hg Hf Hfresh Hv. unfold img in Hv. unfold xend, x0, create_prog, index_tail. rewrite Hg.
+    destruct k, pre, oc; go;
+      try (match goal with F : f _ = true |- _ => rewrite Hf in F; discriminate F end); try congruence;
+      cbn [run snd fst s_log s_conn rev app left_after_gather end_scope committed current begin_scope lookup set_tbl];
+      rewrite ?name_eqb_refl, ?Htm, ?Hmt, ?HT0, ?Hfresh;
+      try (match goal with L : lookup tmp db = _ |- _ => rewrite L end); auto.
   Qed.
 End Create.
 
@@ -323,7 +360,7 @@ Section Frame.
   Lemma create_prog_all (S:stmt -> Prop) :
     S (SCreateTable tmp nd) -> S (SCopy t tmp tr) -> S (SDropTable t) -> S (SDropTable tmp) -> S (SRename tmp t) ->
     (forall i, S (SCreateIndex t i)) -> all_stmts S (create_prog t tmp nd tr ixs).
-  Proof. intros. cbn. repeat split; auto. apply index_prog_all; auto. Qed.
+  Proof. intros. cbn. repeat split; auto. unfold index_tail. destruct (gather_ok tr ixs); [apply index_prog_all; auto|exact I]. Qed.
   Lemma create_prog_touches : all_stmts touches_only (create_prog t tmp nd tr ixs).
   Proof. apply create_prog_all; cbn; auto. Qed.
 
@@ -492,6 +529,30 @@ Section Top.
     pose proof (fresh_neq Hfresh) as E.
     apply (create_success k pre db t tmp nd tr ixs f inj T0 HT0 E (neq_both E)); auto.
   Qed.
+
+  Theorem fault_table_lk pos :
+    (pos <= 3)%nat -> (forall n, f n = Nat.eqb n pos) -> lookup tmp db = None ->
+    violates nd [] (map (copy_row tr) (t_rows T0)) = false ->
+    (lookup t (r_final r), lookup tmp (r_final r)) =
+      left_after k pre (eff_outcome sc (r_err r)) pos T0 nd (map (copy_row tr) (t_rows T0)).
+  Proof.
+    intros Hpos Hf Hfresh Hv. unfold r. rewrite run_batch_eq. cbn [r_final r_err]. fold tmp.
+    pose proof (fresh_neq Hfresh) as E.
+    apply (create_fault_table k pre db t tmp nd tr ixs f inj T0 HT0 E (neq_both E)); auto.
+  Qed.
+  Theorem gather_fault_lk :
+    gather_ok tr ixs = false -> (forall n, f n = false) -> lookup tmp db = None ->
+    violates nd [] (map (copy_row tr) (t_rows T0)) = false ->
+    r_err r = Some EPython /\ r_log r = [KCreate tmp; KCopy t tmp; KDrop t; KRename tmp t] /\
+    (lookup t (r_final r), lookup tmp (r_final r)) =
+      left_after_gather k pre (eff_outcome sc (r_err r)) T0 nd (map (copy_row tr) (t_rows T0)).
+  Proof.
+    intros Hg Hf Hfresh Hv. unfold r. rewrite run_batch_eq. cbn [r_final r_err r_log]. fold tmp.
+    pose proof (fresh_neq Hfresh) as E.
+    destruct (create_gather_fault k pre db t tmp nd tr ixs f inj T0 HT0 E (neq_both E)
+                (eff_outcome sc (snd (run k f inj (create_prog t tmp nd tr ixs) (mkSt (begin_scope k pre db) 0 [])))) Hg Hf Hfresh Hv) as [H1 [H2 H3]].
+    auto.
+  Qed.
 End Top.
 
 (* ------------------------------------------------------------------ the decider *)
@@ -572,7 +633,7 @@ Definition wit_t : name := [116]%N.
 Definition wit_rows : list row := [[VInt 1; VInt 1; VText [120]%N]; [VInt 2; VNull; VText [121]%N]; [VInt 3; VInt 3; VText [121]%N]].
 Definition wit_db : tables := [(wit_t, Some (mkTable (mkDef 10 [0%nat] [[0%nat]] []) wit_rows []))].
 Definition wit (sc:scope) : input :=
-  mkIn Pysqlite false wit_db wit_t (mkDef 11 [0%nat; 1%nat] [[0%nat]] []) [TCol 0; TCol 1; TCol 2] [] [] sc None.
+  mkIn Pysqlite false wit_db wit_t (mkDef 11 [0%nat; 1%nat] [[0%nat]] []) [TCol 0; TCol 1; TCol 2] [] [] sc None false.
 
 Theorem tmp_gone_refuted : exists i, inclass_C11 i = false /\ check_C11 i (model_out i) = false /\ ~ C11_holds i (model_out i).
 Proof.
@@ -594,7 +655,7 @@ Qed.
 Lemma run_inj_indep k f inj inj' p : forall x,
   fst (run k f inj p x) = fst (run k f inj' p x) /\ (snd (run k f inj p x) = None <-> snd (run k f inj' p x) = None).
 Proof.
-  induction p as [|s|p IHp q IHq|b IHb h IHh els IHe]; cbn [run]; intros x.
+  induction p as [|s|p IHp q IHq|e0|b IHb h IHh els IHe]; cbn [run]; intros x.
   - split; tauto.
   - unfold step. destruct (f (s_n x)); cbn; [split; [auto|split; discriminate]|].
     destruct (exec k s (s_conn x)); cbn; split; tauto.
@@ -603,6 +664,7 @@ Proof.
     + exfalso. destruct H2 as [_ H2]. specialize (H2 eq_refl). discriminate.
     + exfalso. destruct H2 as [H2 _]. specialize (H2 eq_refl). discriminate.
     + apply IHq.
+  - cbn. split; [auto|split; discriminate].
   - destruct (IHb x) as [H1 H2]. destruct (run k f inj b x) as [x1 e1]; destruct (run k f inj' b x) as [x1' e1']; cbn in *. subst x1'.
     destruct e1, e1'.
     + destruct (IHh x1) as [H3 _]. destruct (run k f inj h x1) as [x2 e2]; destruct (run k f inj' h x1) as [x2' e2']; cbn in *. subst.
@@ -632,6 +694,40 @@ Proof.
 Qed.
 
 (* the exception that propagates is the injected one when a single statement of the try body is hit and the handler is not *)
-Theorem tddl_irrelevant k pre db t nd tr ixs fl sc v1 v2 :
-  model_out (mkIn k pre db t nd tr ixs fl sc v1) = model_out (mkIn k pre db t nd tr ixs fl sc v2).
+Theorem tddl_irrelevant k pre db t nd tr ixs fl sc v1 v2 p1 p2 :
+  model_out (mkIn k pre db t nd tr ixs fl sc v1 p1) = model_out (mkIn k pre db t nd tr ixs fl sc v2 p2).
 Proof. reflexivity. Qed.
+
+(* ------------------------------------------------------------------ the decider is complete as well *)
+Lemma mseqb_complete a b : mseq a b -> mseqb a b = true.
+Proof. intros H. unfold mseqb. apply forallb_forall. intros r _. apply Nat.eqb_eq. apply H. Qed.
+Lemma name_seteqb_complete a b : name_seteq a b -> name_seteqb a b = true.
+Proof. unfold name_seteq, name_seteqb. intros H. apply andb_true_iff. split; apply name_subb_incl; intros x Hx; apply H; auto. Qed.
+Lemma otable_eqb_complete x y : otable_equiv x y -> otable_eqb x y = true.
+Proof. unfold otable_equiv, otable_eqb. intros [H1 [H2 H3]]. rewrite H1, N.eqb_refl, (mseqb_complete _ _ H2), (name_seteqb_complete _ _ H3). auto. Qed.
+Lemma handler_cleanb_true f tmp log : forall j0, handler_cleanb_from f tmp j0 log = true ->
+  forall j, nth_error log j = Some (KDrop tmp) -> f (j0 + j)%nat = false.
+Proof.
+  induction log as [|s log IH]; cbn [handler_cleanb_from]; intros j0 H j Hj; [destruct j; discriminate|].
+  apply andb_true_iff in H. destruct H as [H1 H2]. destruct j as [|j]; cbn in Hj.
+  - inversion Hj; subst s. rewrite (proj2 (skind_eqb_eq _ _) eq_refl) in H1. rewrite Nat.add_0_r. apply negb_true_iff; auto.
+  - rewrite <- plus_n_Sm. apply (IH (S j0) H2 j Hj).
+Qed.
+Lemma handler_cleanb_sound f tmp log : handler_cleanb f tmp log = true -> handler_clean f tmp log.
+Proof. intros H j Hj. apply (handler_cleanb_true f tmp log 0 H j Hj). Qed.
+
+Theorem decider_complete i o : C11_holds i o -> check_C11 i o = true.
+Proof.
+  unfold C11_holds, check_C11. destruct (o_err o) as [e|]; [|auto]. intros H.
+  destruct (lookup (i_t i) (i_db i)) as [T0|] eqn:HT0; [|auto].
+  destruct (H ltac:(discriminate) T0 eq_refl) as [Hn He]. apply andb_true_iff. split.
+  - unfold no_row_lost in Hn. unfold no_row_lostb.
+    destruct Hn as [[x [F1 [F2 F3]]]|[[x [F1 F2]]|[x [F1 [F2 F3]]]]]; rewrite F1.
+    + rewrite F2, N.eqb_refl, (mseqb_complete _ _ F3). auto.
+    + rewrite (mseqb_complete _ _ F2). rewrite orb_true_r. auto.
+    + rewrite F2, N.eqb_refl, (mseqb_complete _ _ F3). cbn. rewrite !orb_true_r. auto.
+  - destruct (early (o_log o)) eqn:Ee; auto. destruct (He eq_refl) as [[x [F1 F2]] Ht]. rewrite F1, (otable_eqb_complete _ _ F2). cbn.
+    destruct (lookup (calc_temp_name (i_t i)) (i_db i)) eqn:L; cbn; auto.
+    destruct (handler_cleanb (faults_of (i_faults i)) (calc_temp_name (i_t i)) (o_log o)) eqn:Hc; cbn; auto.
+    rewrite (Ht eq_refl (handler_cleanb_sound _ _ _ Hc)). auto.
+Qed.
